@@ -109,6 +109,9 @@ pub(crate) fn validate(input: &DataType) -> Result<()> {
                     validate_dedicated_member_attrs(&f.attrs.attrs, |x| x.attr.container_ty.as_ref(), None, f.member.span(), &type_paths, &mut errors);
                     validate_dedicated_member_attrs(&f.attrs.ghost_attrs, |x| x.attr.container_ty.as_ref(), None, f.member.span(), &type_paths, &mut errors);
                     validate_member_error_instrs(input, &f.attrs, &mut errors);
+
+                    bark_at_member_attr(&f.attrs.child_attrs, "child", |_| f.member.span(), &mut errors);
+                    bark_at_member_attr(&f.attrs.parent_attrs, "parent", |_| f.member.span(), &mut errors);
                 }
             }
         },
